@@ -5,6 +5,7 @@
   ONLY property theorems live here; helper lemmas are in `Lemmas/Ledger*.lean`.
 -/
 import BumpProof.Lemmas.LedgerScope
+import BumpProof.Lemmas.LedgerReplay
 import BumpProof.Lemmas.LedgerEx
 
 set_option linter.unusedSimpArgs false
@@ -239,6 +240,119 @@ theorem SameGeometryPrefix.trans {n : Nat} {a b c : State}
   obtain ⟨z, hz, hb', hs'⟩ := h2 j hj y hy
   exact ⟨z, hz, hb'.trans hb, hs'.trans hs⟩
 
+/-! ## Repeating the same workload after the scope needs no new memory
+
+  `Ledger.Run cfg s Ls s1 ps`: the allocations `Ls`, executed in order from `s`, all succeed, return the
+  addresses `ps` and end in `s1` (any number of them may have acquired new chunks). -/
+
+/-- Replay in any state `t` that has the current chunk and position of `s`, the same minimum
+    alignment, and still owns every chunk the first run ended with: every allocation succeeds again
+    AT THE SAME ADDRESS, and the base allocator is never consulted. -/
+theorem replay_needs_no_memory {cfg : Cfg} {s s1 t : State} {Ls : List Layout} {ps : List Nat} {i : Nat}
+    (hrun : Run cfg s Ls s1 ps) (hcur : s.cur = .chunk i) (hi : i < s.chunks.length)
+    (hsim : Sim s t) (hfin : CovC s1.chunks t.chunks) :
+    ∃ t1, Run cfg t Ls t1 ps ∧ t1.reqs = t.reqs ∧ t1.resps = t.resps ∧ t1.chunks.length = t.chunks.length := by
+  obtain ⟨t1, h1, h2, h3, _, h5, _⟩ := hrun.replay t ⟨i, hcur, hi⟩ hsim hfin
+  exact ⟨t1, h1, h2, h3, h5⟩
+
+/-- The scope version: run a workload inside a scope entered in `s`, leave the scope (`reset_to` with
+    the checkpoint of `s`), run the same workload again: `reset_to` does not fault, the second run
+    succeeds with the same addresses, and neither makes any base-allocator request. -/
+theorem scope_replay_needs_no_memory {cfg : Cfg} {s s1 : State} {Ls : List Layout} {ps : List Nat} {i : Nat}
+    {c : Chunk} (hrun : Run cfg s Ls s1 ps)
+    (hcur : s.cur = .chunk i) (hc : s.chunks[i]? = some c)
+    (hma : s.minAlign = 1 ∨ s.minAlign = 2 ∨ s.minAlign = 4 ∨ s.minAlign = 8 ∨ s.minAlign = 16)
+    (hd : s.minAlign ∣ c.pos)
+    (hin : c.contentStart cfg ≤ c.pos ∧ c.pos ≤ c.contentEnd cfg) (hp : c.pos < 2^64 - 16) :
+    ∃ s'' s2, resetTo cfg s1 (checkpoint cfg s) = .ok s'' ∧ s''.reqs = s1.reqs ∧
+      Run cfg s'' Ls s2 ps ∧ s2.reqs = s1.reqs ∧ s2.chunks.length = s1.chunks.length := by
+  have hext := hrun.ext
+  have hcp : checkpoint cfg s = { cur := .chunk i, addr := c.pos } := by
+    unfold checkpoint curPos; simp only [hcur, hc]
+  obtain ⟨c1, hc1, sp, _⟩ := hext.chunk i c hc
+  have hr := resetTo_chunk (cfg := cfg) (a := c.pos) hc1
+    (by rw [contentStart_congr cfg sp, contentEnd_congr cfg sp]; exact hin)
+    (by rw [hext.minAlign]; exact hma) (by rw [hext.minAlign]; exact hd) hp
+  have hi := (List.getElem?_eq_some_iff.1 hc).1
+  have hsim : Sim s { setPos s1 i c.pos with cur := .chunk i } := by
+    refine ⟨⟨hext.minAlign, hext.covC.trans (CovC.modify_pos _ _ _)⟩, hcur.symm, ?_⟩
+    intro i' x hi' hx
+    rw [hcur] at hi'
+    simp only [Cur.chunk.injEq] at hi'
+    subst hi'
+    rw [hc] at hx; cases hx
+    refine ⟨{ c1 with pos := c.pos }, ?_, rfl⟩
+    show (s1.chunks.modify i _)[i]? = _
+    simp only [List.getElem?_modify, hc1, ↓reduceIte, Option.map_some]
+    rfl
+  have hfin : CovC s1.chunks ({ setPos s1 i c.pos with cur := .chunk i } : State).chunks :=
+    CovC.modify_pos _ _ _
+  obtain ⟨t1, h1, h2, _, h4⟩ := replay_needs_no_memory hrun hcur hi hsim hfin
+  refine ⟨{ setPos s1 i c.pos with cur := .chunk i }, t1, (by rw [hcp]; exact hr), rfl, h1, h2, ?_⟩
+  rw [h4]; exact setPos_length s1 i c.pos
+
+/-- `reset()` loop: once one round of a workload fits in the single chunk the arena has (the round
+    acquired nothing), `reset` releases nothing and every later round behaves identically — same
+    addresses, no base-allocator request.  The conclusion re-establishes the hypotheses for the next
+    round (one chunk at its start position, current), so this holds for all later rounds. -/
+theorem reset_loop_stable {cfg : Cfg} {s0 s1 : State} {Ls : List Layout} {ps : List Nat} {c0 : Chunk}
+    (hcur : s0.cur = .chunk 0) (hch : s0.chunks = [c0]) (hpos : (c0.resetPos cfg).pos = c0.pos)
+    (hrun : Run cfg s0 Ls s1 ps) (hone : s1.chunks.length = 1) :
+    (reset cfg s1).reqs = s1.reqs ∧ (reset cfg s1).cur = .chunk 0 ∧
+    (∃ c1, (reset cfg s1).chunks = [c1] ∧ (c1.resetPos cfg).pos = c1.pos) ∧
+    ∃ t1, Run cfg (reset cfg s1) Ls t1 ps ∧ t1.reqs = (reset cfg s1).reqs ∧ t1.chunks.length = 1 := by
+  have hext := hrun.ext
+  obtain ⟨c1, hc1⟩ : ∃ c1, s1.chunks = [c1] := by
+    cases h : s1.chunks with
+    | nil => rw [h] at hone; cases hone
+    | cons a l =>
+      cases l with
+      | nil => exact ⟨a, rfl⟩
+      | cons b l' => rw [h] at hone; simp only [List.length_cons] at hone; omega
+  have h0 : s0.chunks[0]? = some c0 := by rw [hch]; rfl
+  obtain ⟨c1', h1, sp, _⟩ := hext.chunk 0 c0 h0
+  have : c1' = c1 := by rw [hc1] at h1; exact (Option.some.inj h1).symm
+  subst this
+  have hcov10 : CovC s1.chunks s0.chunks := by
+    intro j x hx
+    rw [hc1] at hx
+    cases j with
+    | zero => cases hx; exact ⟨c0, h0, sp.symm⟩
+    | succ j => cases hx
+  obtain ⟨_, _, _, _, _, _, j, hj1, hj2⟩ :=
+    hrun.replay s0 ⟨0, hcur, by rw [hch]; exact Nat.zero_lt_one⟩ ⟨⟨rfl, CovC.refl _⟩, rfl, fun i c _ hc => ⟨c, hc, rfl⟩⟩ hcov10
+  have hj0 : j = 0 := by omega
+  subst hj0
+  have hreset : reset cfg s1 = { s1 with reqs := s1.reqs ++ [], chunks := [c1'.resetPos cfg], cur := .chunk 0 } := by
+    unfold reset
+    simp only [hj1, hc1, List.take_zero, List.reverse_nil, List.drop_zero, List.dropLast_singleton,
+      List.append_nil, List.map_nil, List.getLast?_singleton]
+  have hrp := resetPos_samePlace cfg sp
+  have hidem : ((c1'.resetPos cfg).resetPos cfg).pos = (c1'.resetPos cfg).pos :=
+    (resetPos_samePlace cfg (SamePlace.refl c1' : SamePlace c1' (c1'.resetPos cfg))).2
+  have hsim : Sim s0 (reset cfg s1) := by
+    rw [hreset]
+    refine ⟨⟨hext.minAlign, ?_⟩, hcur.symm, ?_⟩
+    · intro k x hx
+      rw [hch] at hx
+      cases k with
+      | zero => cases hx; exact ⟨_, rfl, hrp.1⟩
+      | succ k => cases hx
+    · intro i x hi hx
+      rw [hcur] at hi; cases hi
+      rw [h0] at hx; cases hx
+      exact ⟨_, rfl, hrp.2.trans hpos⟩
+  have hfin : CovC s1.chunks (reset cfg s1).chunks := by
+    rw [hreset, hc1]
+    intro k x hx
+    cases k with
+    | zero => cases hx; exact ⟨_, rfl, SamePlace.refl _⟩
+    | succ k => cases hx
+  obtain ⟨t1, r1, r2, _, r4⟩ := replay_needs_no_memory hrun hcur (by rw [hch]; exact Nat.zero_lt_one) hsim hfin
+  refine ⟨by rw [hreset]; exact List.append_nil _, by rw [hreset], ⟨c1'.resetPos cfg, by rw [hreset], hidem⟩,
+    t1, r1, r2, ?_⟩
+  rw [r4, hreset]; rfl
+
 /-! ## Non-vacuity: concrete states satisfying the hypotheses (checked by evaluation) -/
 
 section Examples
@@ -262,6 +376,19 @@ example : (stats cfg0 s2).allocated = 72 := rfl
 example : cfg0.ga = false ∧ (initState cfg0).cur = .unallocated := ⟨rfl, rfl⟩
 example : (stats cfg0 (resetToStart cfg0 s2later)).allocated = 0 :=
   (resetToStart_allocated_zero (cfg := cfg0) (s' := s2later) (j := 1) rfl rfl).2.2.1
+
+/-- a workload that stays in the current chunk, and one that acquires a chunk (the base allocator
+    grants 2048 bytes at 16384) -/
+example : ∃ s1, Run cfg0 s2 [L100, L100] s1 [4200, 4304] := ⟨_, Run.cons rfl (Run.cons rfl (Run.nil _))⟩
+example : ∃ s1, Run cfg0 { sFull with resps := [.granted 16384 2048] } [L100] s1 [16416] ∧ s1.chunks.length = 2 ∧
+    s1.reqs = [.alloc 1008 16] :=
+  ⟨_, Run.cons rfl (Run.nil _), rfl, rfl⟩
+
+/-- hypotheses of `reset_loop_stable`: one chunk at its start position, a round that fits in it -/
+example : ∃ s1, ({ s2 with chunks := [ch 4096 496 4128] } : State).cur = .chunk 0 ∧
+    ((ch 4096 496 4128).resetPos cfg0).pos = (ch 4096 496 4128).pos ∧
+    Run cfg0 { s2 with chunks := [ch 4096 496 4128] } [L100, L100] s1 [4128, 4232] ∧ s1.chunks.length = 1 :=
+  ⟨_, rfl, rfl, Run.cons rfl (Run.cons rfl (Run.nil _)), rfl⟩
 
 end Examples
 
